@@ -237,7 +237,11 @@ def judge(res13, res14, job):
                     # defect model (KF-C14-01): an integer value beyond the 64-bit significand whose 18 significant digits would fit it once the
                     # trailing zeros are moved into the exponent - descale multiplies by the radix first and then has to drop a digit
                     big = v.denominator == 1 and abs(v) > MAXSIG
-                    viol(t14, "not_exact_although_it_fits" + (":integer_value_exceeds_the_64_bit_significand" if big else ""), dict(w14, exp=("-" if v < 0 else "") + full))
+                    # defect model (KF-C14-02): a radix that is neither 2 nor 10 with a negative exponent: the f fractional decimal digits are
+                    # produced from rep * 10^f, which no longer fits the 64-bit significand although the quotient by R^-E has <= 18 digits
+                    fdig = len(full.split(".")[1]) if "." in full else 0
+                    inter = E < 0 and R not in (2, 10) and abs(rep) * 10 ** fdig > MAXSIG
+                    viol(t14, "not_exact_although_it_fits" + (":integer_value_exceeds_the_64_bit_significand" if big else ":scaled_up_significand_exceeds_64_bits" if inter else ""), dict(w14, exp=("-" if v < 0 else "") + full))
                     continue
             if d != 0:
                 nt = True
